@@ -1,14 +1,83 @@
-//! Operations for C20 (see ops.rs). Fill in: return Some(outcome) for the ops this module owns.
+//! Operations for C20: the convenience ("compiled") API, which goes through the process-wide
+//! `TZ_PROVIDER: LazyLock<Mutex<FsTzdbProvider>>`.
+//!
+//! Granularity rule: every op performs EXACTLY ONE wrapper call (= one acquisition of the provider
+//! lock = one critical section of `ProviderLock.tla`). Receivers are built with provider-free
+//! constructors (`ZonedDateTime::try_new`, `TimeZone::try_from_str`) and results are projected with
+//! provider-free getters (`epoch_nanoseconds`, `timezone().identifier()`), so the under-lock
+//! provider events of one logged call all belong to one critical section.
 use crate::js::{self, big, int};
-use crate::ops::{utc, FS};
 use crate::proj::*;
 use serde_json::{json, Value};
+use std::str::FromStr;
 use temporal_rs::options::*;
 use temporal_rs::*;
 
+fn tz(a: &Value) -> TemporalResult<TimeZone> { TimeZone::try_from_str(js::s(a, "tz")) }
+/// provider-free receiver
+fn zdt(a: &Value) -> TemporalResult<ZonedDateTime> { ZonedDateTime::try_new(num(&a["ns"]), iso(), tz(a)?) }
+fn p_zdt(z: &ZonedDateTime) -> Value {
+    json!({"ns": big(z.epoch_nanoseconds().as_i128()), "tz": z.timezone().identifier().unwrap_or_else(|_| "?".into())})
+}
+fn rel(a: &Value) -> TemporalResult<Option<RelativeTo>> {
+    if js::has(a, "rel") { Ok(Some(RelativeTo::ZonedDateTime(zdt(&a["rel"])?))) } else { Ok(None) }
+}
+fn dis(a: &Value) -> Disambiguation {
+    js::opt_s(a, "dis").map(|s| Disambiguation::from_str(s).expect("dis")).unwrap_or(Disambiguation::Compatible)
+}
+fn off(a: &Value) -> OffsetDisambiguation {
+    js::opt_s(a, "off").map(|s| OffsetDisambiguation::from_str(s).expect("off")).unwrap_or(OffsetDisambiguation::Reject)
+}
+fn f64_bits(x: f64) -> Value { json!(format!("{:016x}", x.to_bits())) }
+
 pub fn exec(op: &str, a: &Value) -> Option<Value> {
-    let _ = a;
-    match op {
-        _ => None,
-    }
+    Some(match op {
+        "CZ.fromStr" => run(|| ZonedDateTime::from_str(js::s(a, "s"), dis(a), off(a)), p_zdt),
+        "CZ.get" => {
+            let f = js::s(a, "f").to_string();
+            run(|| {
+                let z = zdt(a)?;
+                Ok(match f.as_str() {
+                    "year" => z.year()? as i64,
+                    "month" => z.month()? as i64,
+                    "day" => z.day()? as i64,
+                    "hour" => z.hour()? as i64,
+                    "minute" => z.minute()? as i64,
+                    "second" => z.second()? as i64,
+                    "millisecond" => z.millisecond()? as i64,
+                    "dayOfWeek" => z.day_of_week()? as i64,
+                    "dayOfYear" => z.day_of_year()? as i64,
+                    "daysInMonth" => z.days_in_month()? as i64,
+                    "inLeapYear" => z.in_leap_year()? as i64,
+                    "hoursInDay" => z.hours_in_day()? as i64,
+                    "offsetSeconds" => z.offset_nanoseconds()? / 1_000_000_000,
+                    _ => panic!("field {}", f),
+                })
+            }, |v| int(*v))
+        }
+        "CZ.offset" => run(|| zdt(a)?.offset(), |s| p_str(s)),
+        "CZ.startOfDay" => run(|| zdt(a)?.start_of_day(), p_zdt),
+        "CZ.toPlainDateTime" => run(|| zdt(a)?.to_plain_datetime(), p_datetime),
+        "CZ.toString" => run(|| zdt(a)?.to_ixdtf_string(DisplayOffset::Auto, DisplayTimeZone::Auto, DisplayCalendar::Auto, ToStringRoundingOptions::default()), |s| p_str(s)),
+        "CZ.add" => run(|| zdt(a)?.add(&arg_duration(&a["dur"])?, arg_ovf(a)), p_zdt),
+        "CZ.subtract" => run(|| zdt(a)?.subtract(&arg_duration(&a["dur"])?, arg_ovf(a)), p_zdt),
+        "CZ.until" => run(|| zdt(a)?.until(&zdt(&a["other"])?, arg_settings(&a["st"])?), p_duration),
+        "CZ.withPlainTime" => run(|| zdt(a)?.with_plain_time(arg_time(&a["time"])?), p_zdt),
+        "CDur.round" => run(|| arg_duration(&a["dur"])?.round(arg_rounding(&a["st"])?, rel(a)?), p_duration),
+        "CDur.compare" => run(|| arg_duration(&a["dur"])?.compare(&arg_duration(&a["other"])?, rel(a)?), |o| p_ord(*o)),
+        "CDur.total" => run(|| arg_duration(&a["dur"])?.total(arg_unit(js::s(a, "unit")), rel(a)?), |f| f64_bits(f.as_inner())),
+        "CInstant.toString" => run(|| arg_instant(&a["ns"])?.to_ixdtf_string(Some(&tz(a)?), ToStringRoundingOptions::default()), |s| p_str(s)),
+        "CRelTo.fromStr" => run(|| RelativeTo::try_from_str(js::s(a, "s")), |r| match r {
+            RelativeTo::PlainDate(d) => json!({"date": p_date(d)}),
+            RelativeTo::ZonedDateTime(z) => json!({"zdt": p_zdt(z)}),
+        }),
+        "CPDT.toZoned" => run(|| arg_datetime(&a["dt"])?.to_zoned_date_time(&tz(a)?, dis(a)), p_zdt),
+        // fault injection (verification hook): panics while holding TZ_PROVIDER
+        "Lock.panic" => run_inf(|| temporal_rs::verif::panic_holding_provider_lock(), |_| Value::Null),
+        // one step of a model history, re-run from scratch in a fresh process (used by `vcheck C20 --replay`)
+        "ProviderLock.call" => crate::sp_c20::exec_history_step(a),
+        // observation, not a call of the API under test
+        "Lock.poisoned" => json!({"kind": "ok", "val": temporal_rs::verif::provider_lock_poisoned()}),
+        _ => return None,
+    })
 }
